@@ -105,7 +105,13 @@ def gen_case(ctx, g, focus=None):
     tags = []
     if shape < 0.35:
         if join is None and r.random() < (0.15 if focus != 'select' else 0.25):
-            qa['kind'] = ('except', [r.randint(0, na - 1) for _ in range(r.randint(1, 3))])      # any order, duplicates allowed
+            # any order, duplicates allowed, an index one past the widest record (then nothing is removed from shorter records);
+            # with DISTINCT / DISTINCT COUNT / TOP on top (the count is prepended to the record the writer kept)
+            qa['kind'] = ('except', [r.randint(0, na) for _ in range(r.randint(1, 3))])
+            qa['distinct'] = r.choice([0, 0, 1, 2, 2])
+            qa['top'] = r.choice([None, None, 1])
+            if r.random() < 0.4 and A and qa['where'] is None:     # (null arithmetic is not language-neutral: no WHERE over missing fields)
+                A = [row[:r.randint(1, len(row))] if r.random() < 0.4 else row for row in A]      # ragged
         else:
             qa['kind'] = ('select', g.items(cx) + ([('expr', ('fld', 'b', 0)), ('starb',)] if (join and join['kind'] == 'left' and r.random() < 0.6) else []))
     elif shape < 0.6:
